@@ -84,6 +84,7 @@ def dynamic_pressure(env, **cfg):
             env.eq("C06", "surface %s unchanged under (rho, v) scaling [%s]" % (q, n), g.get(v2, "ap.%s_perf.%s" % (n, q)), g.get(v1, "ap.%s_perf.%s" % (n, q)))
     for q in ("CL", "CM") + (() if cfg.get("viscous") else ("CD",)):
         env.eq("C06", "aircraft %s unchanged under (rho, v) scaling" % q, g.get(v2, "ap." + q), g.get(v1, "ap." + q))
+    _area_weighted(env, g, v1, surfs)
 
 
 def _dynamic_pressure_native(env, g, surfs):
@@ -103,6 +104,17 @@ def _dynamic_pressure_native(env, g, surfs):
     for s in surfs:
         n = s["name"]
         env.eq("C06", "surface Cl unchanged under (rho, v) scaling [%s]" % n, g.get(v2, "ap.%s_perf.Cl" % n), g.get(v1, "ap.%s_perf.Cl" % n))
+    _area_weighted(env, g, v1, surfs)
+
+
+def _area_weighted(env, g, vals, surfs):
+    """aircraft coefficients of the analysis point are the reference-area-weighted combination of the coefficients the point
+    reports for its surfaces (lift offset CL0 and drag offset CD0 of every surface included)"""
+    Stot = s0(g.get(vals, "ap.total_perf.S_ref_total"))
+    for q in ("CL", "CD"):
+        tot = sum(s0(g.get(vals, "ap.%s_perf.%s" % (s["name"], q))) * s0(g.get(vals, "ap.%s.S_ref" % s["name"])) for s in surfs)
+        env.eq("C06", "aircraft %s * S_ref_total == sum of surface %s * S_ref over the surfaces" % (q, q), s0(g.get(vals, "ap." + q)) * Stot, tot)
+    env.eq("C06", "S_ref_total == sum of the surface areas (no reference area specified)", Stot, sum(s0(g.get(vals, "ap.%s.S_ref" % s["name"])) for s in surfs))
 
 
 @job("c06.viscous_length_scaling", ("C06",), cfgs=[dict(k_lam=0.05, symmetry=True), dict(k_lam=0.0, symmetry=False), dict(k_lam=1.0, symmetry=True)],
